@@ -778,6 +778,14 @@ func execC17(t *testing.T, c *Case) *Verdict {
 		setRun(r)
 		defer setRun(nil)
 		e.r, e.in = r, in
+		compileOptCache = nil
+		if c.Knobs.ReuseOpts {
+			// option VALUES are reused between calls, the way an application keeps its options around
+			compileOptCache = map[string]fhirpath.CompileOption{}
+			in.evalOptCache = map[string]fhirpath.EvaluateOption{}
+			v.Stats.probe("option-values-reused")
+		}
+		defer func() { compileOptCache = nil }()
 		for k := 0; k < 2; k++ {
 			e.sentinelOpts[k] = evalopts.EnvVariable(fmt.Sprintf("zs%d", k), system.String(fmt.Sprintf("sentinel-%d", k)))
 			e.sentinelProg[k] = compile(ProgSpec{Src: fmt.Sprintf("%%zs%d", k)}, nil)
